@@ -205,6 +205,26 @@ def translate():
     else:
         raise ShapeError("Formattable for &Vec<ArgItem<SpecificImportArg>> changed: %r" % ia[:300])
 
+    # ---- format_block: is the trivia in front of `{` (comments of a directive's / label's / import's block) emitted?
+    fb = re.sub(r"\s+", " ", between(src, r"fn format_block\(&mut self, block: &Block\)\s*\{", r"\n    fn format_expression", "format_block")).strip()
+    arm = re.search(r"Token::Braces \{ block, \.\. \}( \| Token::Config\(block\))? => \{(.*?)\}\s*Token::Config", re.sub(r"\s+", " ", src + " Token::Config"))
+    old_head = "match self.options.braces.position { BracePosition::SameLine => self.push(&block.lparen.data).push(\"\\n\"), BracePosition::NewLine => self.push(\"\\n\").push(&block.lparen.data).push(\"\\n\"), };"
+    new_head = ("let mut on_new_line = false; if let Some(t) = block.lparen.trivia.as_ref() { for triv in &t.data { match triv { "
+                "Trivia::CStyle(comment) => { self.push_type(ChunkType::Comment, comment); on_new_line = false; } "
+                "Trivia::CppStyle(comment) => { self.push_type(ChunkType::Comment, comment).push(\"\\n\"); on_new_line = true; } "
+                "Trivia::Whitespace(_) | Trivia::NewLine => (), } } } self.format_block_without_lparen_trivia(block, on_new_line); } "
+                "fn format_block_without_lparen_trivia(&mut self, block: &Block, on_new_line: bool) { match self.options.braces.position { "
+                "BracePosition::SameLine => self.push(&block.lparen.data).push(\"\\n\"), BracePosition::NewLine => { if !on_new_line { self.push(\"\\n\"); } "
+                "self.push(&block.lparen.data).push(\"\\n\") } };")
+    flat_src = re.sub(r"\s+", " ", src)
+    if fb.startswith(old_head) and "Token::Braces { block, .. } | Token::Config(block) => { self.format_block(block); }" in flat_src:
+        lbrace_trivia = False
+    elif fb.startswith(new_head) and ("Token::Braces { block, .. } => { self.format_block_without_lparen_trivia(block, false); } "
+                                      "Token::Config(block) => { self.format_block(block); }") in flat_src:
+        lbrace_trivia = True
+    else:
+        raise ShapeError("format_block / the Braces arm have an unrecognised shape: %r" % fb[:200])
+
     out = ["(* GENERATED by translate/t_fmt.py from mos-core/src/formatting/mod.rs and parser/ast.rs. DO NOT EDIT. *)",
            "From Coq Require Import Bool.",
            "From Mos Require Import model.Format.",
@@ -232,6 +252,8 @@ def translate():
             "",
             "(* format_tokens pushes a newline in front of a statement that starts on the line of the previous statement *)",
             "Definition separates_same_line_statements : bool := %s." % ("true" if separates else "false"),
+            "(* format_block emits the comments in front of the `{` of a directive / label / import / `.define` block *)",
+            "Definition emits_lbrace_trivia : bool := %s." % ("true" if lbrace_trivia else "false"),
             "(* the trivia in front of a specific import argument (its Located wrapper) is emitted *)",
             "Definition emits_import_arg_trivia : bool := %s." % ("true" if import_arg_trivia else "false"),
             "",
@@ -246,7 +268,8 @@ def translate():
                                                                      "true" if cas["Lowercase"] == "to_uppercase" else "false")]
     fp = write_if_changed("FmtRules.v", "\n".join(out) + "\n")
     return {"file": "Gen/FmtRules.v", "fingerprint": fp, "kinds": len(variants), "rule_arms": len(arms) + 1, "defaults": d,
-            "separates_same_line_statements": separates, "emits_import_arg_trivia": import_arg_trivia}
+            "separates_same_line_statements": separates, "emits_import_arg_trivia": import_arg_trivia,
+            "emits_lbrace_trivia": lbrace_trivia}
 
 
 if __name__ == "__main__":
